@@ -130,7 +130,7 @@ static void check(const Def& d, const Msg& mm, const std::string& family) {
    if (real != ref) {
       // signature: the first item at which the two texts part (approximate attribution: kinds + options of the definition)
       std::string sig = family + "|sep" + (d.sep0 ? "+" : "-"); for (auto& it : d.items) sig += "|" + item_sig(it);
-      vf::violation(sig, "rendered text differs\n  definition: " + def_text(d) + "\n  message: " + msg_text(mm) + "\n  implementation: '" + real + "'\n  reference:      '" + ref + "'", def_text(d));
+      vf::violation(sig, "rendered text differs\n  definition: " + def_text(d) + "\n  message: " + msg_text(mm) + "\n  implementation: '" + real + "'\n  reference:      '" + ref + "'", std::to_string(vf::current_case()));
    }
    vf::outcome(real);
    if (vf::verbose()) printf("  %s | %s -> '%s'\n", def_text(d).c_str(), msg_text(mm).c_str(), real.c_str());
